@@ -314,6 +314,15 @@ def gen(seed, tier, want=None):
             for d in (1, 3, 9):
                 h2 = [ord("x")] * (65536 + d) + [ord(c) for c in "q z"]
                 emit(lines, cfg[:3] + "1", "FG", h2, [ord("q"), ord("z")], rng)
+    # ---- greedy fallback on a large NON-ASCII haystack (window from the first needle character to the LAST occurrence of
+    #      the last one far above the matrix limit): repeated last needle character, missing middle character, and the
+    #      plain match - the fallback must find the tight end itself (round 6, C02-m11) ----
+    for W2 in ((20000, 9000) if tier == "quick" else (20000, 9000, 30011, 66000)):
+        cfg = rand_cfg(rng)
+        fill = rng.choice([0xE9, 0x4F60, 0x3C3])
+        for tail, nd in (("b b", "ab"), ("b b", "axb"), ("b", "ab"), ("xb-b", "axb"), ("cb c", "abc")):
+            h2 = [ord("a")] + [fill] * W2 + [ord(c) for c in tail]
+            emit(lines, cfg, "FG", h2, fix_needle(cfg, [ord(c) for c in nd]), rng)
     # ---- range edges and case twins: one- and two-character needles over the characters at the edges of the ASCII
     #      digit / letter ranges and their +-32 neighbours ('@' 'A' 'Z' '[' '`' 'a' 'z' '{' '0' '9' '/' ':'), haystacks that hold
     #      the needle character, its case twin and its +-32 neighbour at differently rewarded positions ----
